@@ -231,11 +231,52 @@ func bigBlobPass(out *Out, t *Target, r *vschema.Rand, en []int32) {
 // that gets the length wrong continues parsing inside the payload). First targets only (2 MB inputs).
 var largeUnknownTargets int
 
+// manyUnknownRecords: ONE message carrying tens of thousands of separate small unknown records (and the same number
+// of elements of a repeated field, where the type has one): what is allocated while decoding must stay proportional to
+// the input (C06_alloc_linear: at most 192 bytes per input byte), also in the NUMBER of records -- a decoder that copies
+// what it has collected so far for every record is quadratic here and nowhere else.
+func manyUnknownRecords(out *Out, t *Target) {
+	for _, n := range []int{40000} {
+		var bs []byte
+		for i := 0; i < n; i++ {
+			bs = append(bs, 0xc0, 0x3e, byte(i%100)) // unknown field 1000, varint
+		}
+		for _, discard := range []bool{false, true} {
+			msg := t.B.ToMessage(0, vval.Empty(t.S, 0))
+			var ms0, ms1 runtime.MemStats
+			runtime.ReadMemStats(&ms0)
+			var err error
+			replay := fmt.Sprintf("many-unknown %s: %d records c0 3e xx (unknown field 1000, varint), discard=%v", t.Full, n, discard)
+			out.Watch("C06", "unmarshal-hang", "proto.Unmarshal", replay, 120*time.Second)
+			p, pm := guard(func() { err = proto.UnmarshalOptions{DiscardUnknown: discard}.Unmarshal(bs, msg) })
+			out.Unwatch()
+			runtime.ReadMemStats(&ms1)
+			out.Case(fmt.Sprintf("many-unknown:%s:%d:%v", t.Full, n, discard), true)
+			out.Count("many_unknown_record_cases")
+			if p {
+				out.Violate("C06", "unmarshal-panic_many-unknown", "panic: "+firstLine(pm), replay)
+				continue
+			}
+			if err != nil {
+				out.Violate("C14", "rejects-unknown-record_many", "a stream of unknown varint records was rejected: "+err.Error(), replay)
+				continue
+			}
+			if grown := ms1.TotalAlloc - ms0.TotalAlloc; grown > uint64(192*len(bs))+(1<<20) {
+				out.Violate("C06", "alloc-disproportionate", fmt.Sprintf("%d input bytes in %d unknown records made Unmarshal allocate %d bytes (more than 192 per input byte: not linear in the number of records)", len(bs), n, grown), replay)
+			}
+			if !discard && len(msg.ProtoReflect().GetUnknown()) != len(bs) {
+				out.Violate("C14", "decode-differs_many-unknown", fmt.Sprintf("%d bytes of unknown records kept, %d received", len(msg.ProtoReflect().GetUnknown()), len(bs)), replay)
+			}
+		}
+	}
+}
+
 func largeUnknownPass(out *Out, t *Target, r *vschema.Rand, en []int32) {
 	if largeUnknownTargets >= 3 {
 		return
 	}
 	largeUnknownTargets++
+	manyUnknownRecords(out, t)
 	for _, n := range []int{1<<21 - 1, 1 << 21, 1<<21 + 12345, 3 << 21} {
 		g := &vval.StreamGen{R: r, S: t.S, G: &vval.GenOpts{EnumNums: en}, Features: map[string]bool{"large-unknown": true, "unknown": true}, MaxDepth: 1}
 		known := g.Message(0, 0)
